@@ -38,6 +38,7 @@ func (c14) Batches(tier string, seed uint64) []core.Batch {
 	b = append(b, spread("matrix", 12, tierN(tier, 2, 8))...) // each batch: 3 of the 36 cells x N
 	b = append(b, spread("random", 4, tierN(tier, 40, 300))...)
 	b = append(b, spread("reject", 2, tierN(tier, 12, 60))...)
+	b = append(b, spread("straddle", 4, tierN(tier, 12, 120))...)
 	b = append(b, spread("dpkgdeb", 4, tierN(tier, 1, 10))...)
 	return b
 }
@@ -50,7 +51,7 @@ func (c14) Mandatory(tier string) []string {
 		}
 	}
 	return append(m, "control-position:first", "control-position:middle-or-last", "control-name:./control", "control-name:control", "extra-members", "via:Load", "via:LoadFile",
-		"reject:version-1.0", "reject:version-3.0", "reject:version-0.93", "reject:no-debian-binary", "reject:no-control", "reject:no-data", "data:symlink", "data:dir", "data:empty-file", "repeat-loads-agree")
+		"reject:version-1.0", "reject:version-3.0", "reject:version-0.93", "reject:no-debian-binary", "reject:no-control", "reject:no-data", "data:symlink", "data:dir", "data:empty-file", "repeat-loads-agree", "two-packages-open", "control:after-large-md5sums", "control:straddles-32KiB")
 }
 
 func codecName(e string) string {
@@ -61,16 +62,39 @@ func codecName(e string) string {
 }
 
 type c14Case struct {
-	Seed    uint64 `json:"seed"`
-	CExt    string `json:"cext"`
-	DExt    string `json:"dext"`
-	Variant string `json:"variant"` // ok | version:<v> | missing:<member> | dpkg-deb:<comp>
+	Seed     uint64 `json:"seed"`
+	CExt     string `json:"cext"`
+	DExt     string `json:"dext"`
+	Variant  string `json:"variant"` // ok | version:<v> | missing:<member> | dpkg-deb:<comp>
+	Straddle bool   `json:"straddle,omitempty"`
 }
 
 func genDebModel(r *core.Rand, cext, dext string) (debModel, *c10Doc, string) {
+	return genDebModelX(r, cext, dext, false)
+}
+
+func genDebModelX(r *core.Rand, cext, dext string, straddle bool) (debModel, *c10Doc, string) {
 	d, wantSrc := genDebControl(r, nil)
 	m := debModel{ControlText: d.sb.String(), ControlExt: cext, DataExt: dext, Binary: "2.0\n"}
+	if r.Chance(1, 3) { // a long unknown field makes the control file span several KiB
+		m.ControlText += "X-Long-Field: " + r.Str("abcdefghijklmnopqrstuvwxyz0123456789 ", r.Range(2000, 9000)) + "x\n"
+	}
 	m.ControlFiles = genControlFiles(r, m.ControlText)
+	if straddle {
+		// exactly [md5sums, ./control] with ./control crossing a 32 KiB multiple of the tar stream
+		if len(m.ControlText) < 1100 {
+			m.ControlText += "X-Long-Field: " + r.Str("abcdefghijklmnopqrstuvwxyz0123456789 ", r.Range(1500, 6000)) + "x\n"
+		}
+		j := r.Range(1, (len(m.ControlText)-1)/512)
+		L := 32768*r.Pick3(1, 1, 2, 3) - 1024 - 512*j - r.Intn(500)
+		var sb strings.Builder
+		for sb.Len() < L-70 {
+			sb.WriteString(r.Str("0123456789abcdef", 32) + "  usr/share/doc/" + r.Str("abcdefgh", 12) + "\n")
+		}
+		sb.WriteString(strings.Repeat("#", L-sb.Len()-1) + "\n")
+		m.ControlFiles = []tarEnt{{Name: "./md5sums", Type: tar.TypeReg, Data: []byte(sb.String()), Mode: 0o644},
+			{Name: "./control", Type: tar.TypeReg, Data: []byte(m.ControlText), Mode: 0o644}}
+	}
 	m.DataFiles = genDataFiles(r, 256<<10)
 	if r.Chance(1, 3) {
 		m.Extras = append(m.Extras, model.ArMember{Name: "_gpgorigin", Timestamp: 1, Mode: "100644", Data: r.Bytes(r.Range(1, 300))})
@@ -181,7 +205,10 @@ func (p c14) run(c *core.C, t *core.T, cs c14Case) {
 		p.dpkgDeb(c, t, r, strings.TrimPrefix(cs.Variant, "dpkg-deb:"))
 		return
 	}
-	m, doc, wantSrc := genDebModel(r, cs.CExt, cs.DExt)
+	m, doc, wantSrc := genDebModelX(r, cs.CExt, cs.DExt, cs.Variant == "ok" && cs.Straddle)
+	if cs.Straddle {
+		c.Cover("control:straddles-32KiB")
+	}
 	switch {
 	case strings.HasPrefix(cs.Variant, "version:"):
 		m.Binary = strings.TrimPrefix(cs.Variant, "version:") + "\n"
@@ -240,6 +267,23 @@ func (p c14) run(c *core.C, t *core.T, cs c14Case) {
 	}
 	c.Cover("repeat-loads-agree")
 	c.Cover("via:Load")
+	// two packages open at the same time (same codecs): both loaded before either is read
+	{
+		m2, doc2, wantSrc2 := genDebModel(core.NewRand(cs.Seed, "second"), cs.CExt, cs.DExt)
+		members2, err2 := m2.members()
+		if err2 == nil {
+			raw2 := model.WriteAr(members2, true)
+			da, erra := deb.Load(bytes.NewReader(raw), "a.deb")
+			db, errb := deb.Load(bytes.NewReader(raw2), "b.deb")
+			if erra != nil || errb != nil {
+				c.Failf("loading two well-formed packages one after the other failed: %v / %v", erra, errb)
+			} else {
+				c14CheckLoaded(c, "first of two open packages", da, members, m, doc, wantSrc, true)
+				c14CheckLoaded(c, "second of two open packages", db, members2, m2, doc2, wantSrc2, true)
+				c.Cover("two-packages-open")
+			}
+		}
+	}
 	// LoadFile
 	path := filepath.Join(t.WorkDir, "c14.deb")
 	os.WriteFile(path, raw, 0o644)
@@ -271,6 +315,11 @@ func (p c14) run(c *core.C, t *core.T, cs c14Case) {
 	}
 	if len(m.Extras) > 0 {
 		c.Cover("extra-members")
+	}
+	for _, e := range m.ControlFiles {
+		if strings.HasSuffix(e.Name, "md5sums") && len(e.Data) > 20000 {
+			c.Cover("control:after-large-md5sums")
+		}
 	}
 	for _, e := range m.DataFiles {
 		switch {
@@ -395,6 +444,10 @@ func (p c14) RunBatch(t *core.T, b core.Batch) {
 	case "random":
 		for i := 0; i < b.N; i++ {
 			emit(c14Case{Seed: r.U64(), CExt: r.Pick([]string{"", "gz", "gz", "zst", "lzma"}), DExt: r.Pick([]string{"", "gz", "zst", "lzma"}), Variant: "ok"})
+		}
+	case "straddle":
+		for i := 0; i < b.N; i++ {
+			emit(c14Case{Seed: r.U64(), CExt: r.Pick([]string{"gz", "gz", "", "zst", "lzma"}), DExt: "", Variant: "ok", Straddle: true})
 		}
 	case "reject":
 		vs := []string{"version:1.0", "version:3.0", "version:0.93", "missing:debian-binary", "missing:control", "missing:data"}
